@@ -61,45 +61,16 @@ fn build(inp: &Input) -> Ix {
     YamlIndex::from_parts(vec![0u64; inp.l.div_ceil(64).max(1)], inp.l, bp, 2 * n, vec![0u64], 0, inp.starts.clone(), inp.ends.clone(), vec![0u64; (2 * n).div_ceil(64).max(1)], Default::default(), Default::default(), Default::default())
 }
 
-/// Full Debug rendering of every `cursor: Cell { .. }` in the index, in order
-/// (open_positions first, bp_to_text_end second). Dense tables have no cursor.
+/// State key of the S1 search: a 128-bit digest of the *complete* `Debug` rendering of the
+/// index. Everything immutable is identical for all states of one search, so the digest
+/// distinguishes exactly the mutable parts (today: the two `Cell<SequentialCursor>`s) —
+/// whatever they are called and wherever they live. No layout assumption is made, so a
+/// refactored or additional cache cannot turn into a false alarm or a too-coarse key.
 fn state_key(ix: &Ix) -> String {
     let d = format!("{ix:?}");
-    let mut out = String::new();
-    let pat = "cursor: Cell {";
-    let mut from = 0;
-    let mut cells = 0;
-    while let Some(p) = d[from..].find(pat) {
-        let s = from + p;
-        let open = s + pat.len() - 1;
-        let mut depth = 0usize;
-        let mut end = None;
-        for (i, ch) in d[open..].char_indices() {
-            match ch {
-                '{' => depth += 1,
-                '}' => {
-                    depth -= 1;
-                    if depth == 0 {
-                        end = Some(open + i + 1);
-                        break;
-                    }
-                }
-                _ => {}
-            }
-        }
-        let e = end.expect("balanced braces in Debug output");
-        let piece = &d[s..e];
-        for f in ["next_open_idx:", "adv_cumulative:", "ib_word_idx:", "ib_ones_before:", "last_ib_arg:", "last_ib_result:"] {
-            assert!(piece.contains(f), "cursor key lost field {f}: {piece}");
-        }
-        out.push_str(piece);
-        out.push('|');
-        cells += 1;
-        from = e;
-    }
-    let expect = d.matches("Compact(AdvancePositions").count() + d.matches("Compact(CompactEndPositions").count();
-    assert!(cells == expect, "found {cells} cursor cells for {expect} compact tables");
-    out
+    let a = h64(&d);
+    let b = h64(&(0x9e37_79b9_7f4a_7c15u64, &d, d.len()));
+    format!("{a:016x}{b:016x}")
 }
 
 fn variant(ix: &Ix) -> (&'static str, &'static str) {
@@ -301,6 +272,7 @@ fn small_inputs(ctx: &Ctx) -> Vec<Input> {
     let maxlen = ctx.pick(4, 5);
     for &l in ls {
         let mut al: Vec<u32> = vec![0, 1, 2, 63, 64, 65, (l - 1) as u32, l as u32];
+        al.retain(|&p| p as usize <= l); // a position beyond the text length is not a valid input
         al.sort_unstable();
         al.dedup();
         for starts in gen::sequences(&al, maxlen) {
@@ -455,7 +427,7 @@ fn explore(ctx: &Ctx, rep: &mut Report) {
     let mut r2 = Report::new();
     real_docs(ctx, &mut r2);
     rep.merge(r2);
-    rep.extra.insert("state_key".into(), json!("Debug rendering of every `cursor: Cell { value: SequentialCursor { next_open_idx, adv_cumulative, ib_word_idx, ib_ones_before, last_ib_arg, last_ib_result } }` of the index (asserted to contain all six fields and one cell per compact table)"));
+    rep.extra.insert("state_key".into(), json!("Debug rendering of every `cursor: Cell { value: SequentialCursor { next_open_idx, adv_cumulative, ib_word_idx, ib_ones_before, last_ib_arg, last_ib_result } }` of the index (key = 128-bit digest of the complete Debug rendering of the index; no layout assumption)"));
 }
 
 fn input_from(v: &Value) -> Input {
